@@ -65,6 +65,9 @@ type Gen struct {
 	named     map[Sort][]namedTerm
 	namedSeen map[string]bool
 	verWM     map[string]string // heap version -> allocation watermark when it was created
+	reveals   map[string]bool   // opaque spec functions whose definition is visible in this unit
+	heapProbe *[]string         // when set, heapGet records the heap names it is asked for
+	opaqueDone map[string]bool
 	curOrigin string            // "" = program; otherwise the goal being evaluated
 	originCtr int
 	privAsms  map[string][]asmRec // origin -> assumptions private to that goal
@@ -157,6 +160,7 @@ func (g *Gen) logRead(fam, base, off, rel, idx string) {
 // to that goal's query.
 func (g *Gen) instantiate(rounds int) int {
 	total := 0
+	rounds = 3
 	if g.privAsms == nil {
 		g.privAsms = map[string][]asmRec{}
 	}
@@ -237,6 +241,9 @@ func (g *Gen) instantiate(rounds int) int {
 					env.vars[qv.Name] = scalar(t, kindOf(t), tup.terms[vi])
 				}
 				env.mode, env.pol, env.guard, env.noInst = 1, 1, qh.guard, false
+				if qh.negate {
+					env.pol, env.noInst = -1, true
+				}
 				func() {
 					defer func() {
 						g.curOrigin = ""
@@ -253,6 +260,9 @@ func (g *Gen) instantiate(rounds int) int {
 					g.asmSeqOverride = qh.seq
 					defer func() { g.asmSeqOverride = saveOv }()
 					t := env.evalBool(qh.body)
+					if qh.negate {
+						t = sNot(t)
+					}
 					if tup.origin == "" {
 						g.assume(qh.guard, t)
 					} else {
@@ -442,6 +452,9 @@ func (g *Gen) clone(s *State) *State {
 }
 
 func (g *Gen) heapGet(s *State, name string, srt Sort) string {
+	if g.heapProbe != nil && name != allocHeap {
+		*g.heapProbe = append(*g.heapProbe, name)
+	}
 	if t, ok := s.heaps[name]; ok {
 		return t
 	}
